@@ -447,9 +447,9 @@ func (e *Engine) callContract(st *State, instr ssa.Instruction, fn *ssa.Function
 	} else if o := fn.Origin(); o != nil && o.Pkg != nil {
 		env.pkg = o.Pkg.Pkg
 	}
-	for i, p := range fn.Params {
+	for i, pn := range paramNames(fn) {
 		if i < len(args) {
-			env.names[p.Name()] = args[i]
+			env.names[pn] = args[i]
 		}
 	}
 	if c.Pure && len(c.Modifies) == 0 {
@@ -530,9 +530,9 @@ func (e *Engine) pureContractApp(st *State, fn *ssa.Function, c *Contract, args 
 	} else if o := fn.Origin(); o != nil && o.Pkg != nil {
 		env.pkg = o.Pkg.Pkg
 	}
-	for i, p := range fn.Params {
+	for i, pn := range paramNames(fn) {
 		if i < len(args) {
-			env.names[p.Name()] = args[i]
+			env.names[pn] = args[i]
 		}
 	}
 	env.bindResults(fn, rets)
